@@ -18,6 +18,12 @@ CHECKS = {
  "C09": ("typestate of the lexer channel (close on every exit of the goroutine, drain deferred on every path of ParseQuery) + edge-cut path search for the end-of-input test with NORETURN summaries + value-range provenance of the placeholder number + table of panic operand types",
          "Static, for every input string: no parse can leave the lexer goroutine blocked; no query is returned on a path that has not seen the end-of-input token; the placeholder number cannot wrap when narrowed to int32; every panic raised by the parser is an error value caught by ParseQuery's recover handler.",
          "Not decided: language equality with the EBNF and tree shape; runtime-panic freedom of the lexer's index arithmetic; termination (all need numeric/language reasoning not available statically here).", "DESIGN.md §4 C09"),
+ "C10": ("symbolic execution of each operator formatter's CFG under an assumed operand kind (kind tests resolved, other branches explored both ways) checked against the parenthesisation table derived from the parser + constant-table agreement of quoting between formatter and parser",
+         "Static, for all query trees: every oneof kind is formatted; an AND/OR operand of NOT, an OR operand of AND and an AND operand of OR are bracketed on every path, brackets always balance; quoting constants of formatter and parser are inverse; comparison/placeholder/group-by formats are the ones the lexer reads. Necessary conditions of the round trip, on all paths.",
+         "Not decided: the round-trip equality and format∘parse fixpoint themselves (need the parser's accepted language, C09's undecided clause).", "DESIGN.md §4 C10"),
+ "C19": ("SSA provenance of each csv record to exactly one AddRow (edge-cut path search per Read site) + shape rule on the header/record index + range analysis of the rune mapper + error-flow with the io.EOF exception + open-site option evaluation",
+         "Static, for all CSV files and both modes: strict csv defaults untouched; the first record and only it is the header; every other successfully read record becomes values[header[i]]=record[i] over the whole record and reaches exactly one AddRow; normalisation keeps a-z and maps the rest to '_' after lower-casing; all failures reach a non-zero exit; success implies Flush; output opened O_EXCL.",
+         "Not decided: normal vs --big observational identity (C05); csv parsing (encoding/csv, trusted).", "DESIGN.md §4 C19"),
  "C11": ("ownership (freshness) census of every store to generated message structs program-wide + symbolic index-bounds check (dominating comparisons over loads of the same field path with linear offsets) + edge-cut path search for the arity test",
          "Static, for every query text, argument list and execution history: binding writes only into the deep copy; no code outside the generated package modifies a message it did not create, so statement templates are immutable; the argument slice is indexed only under 0 <= n-1 < len; both statement kinds test the argument count before binding on every path.",
          "Not decided: that argument n lands in $n for all n (value-level). Trusted: proto.Clone deep-copies; database/sql argument order.", "DESIGN.md §4 C11"),
